@@ -132,6 +132,15 @@ def templates(tier="quick"):
             add("discovered_%s_with_%d_implicit" % (kind, nimp), [v0, v1], ["obj", "exe", "hdr"], extra_ops=ops5, init=[0, 1], depth=2,
                 tags=["discovered"])
 
+    # tools that walk *recorded* dependencies (missingdeps, deps) on a graph whose cycle lies below the statement that
+    # recorded them and does not contain the generator of the recorded header
+    for kind, kw in (("gcc", {"deps": "gcc"}), ("msvc", {"deps": "msvc"})):
+        base = [Stmt("gen.h", ex=["g.in"]), Stmt("obj", ex=["src"], oo=["other"], hidden=["gen.h"], **kw)]
+        v0 = Variant("v0", base + [Stmt("other", ex=["s"])])
+        v1 = Variant("v1", base + [Stmt("other", ex=["cyc1"]), Stmt("cyc1", ex=["cyc2"]), Stmt("cyc2", ex=["cyc1"])])
+        ops6 = [ninja_op(j=1), {"op": "variant", "to": 1, "label": "manifest:=v1 (a cycle below obj's order-only input)"}]
+        add("recorded_deps_above_cycle_" + kind, [v0, v1], ["obj", "other"], extra_ops=ops6, init=[0, 1], depth=1, tags=["discovered", "tools"])
+
     # dyndep-closed cycle through an implicit OUTPUT: out gains output circ, and out's own input depends on circ
     dd3 = dyndep_text([("out", ["circ"], [], False)])
     stm3 = [Stmt("dd", ex=["dd.in"], copy=True), Stmt("in", ex=["circ"]),
